@@ -922,7 +922,8 @@ package starlark
 // ---- set and dict operators (C12): the receiver of the derived operation is the LEFT operand
 // (whose order the result keeps), whatever the sizes of the operands
 //@ func Binary
-//@   prop C12 C04 C13 C10
+//@   prop C12 C04 C13 C10 C02
+//@   ensures [C02] huge_left_shift_refused: op == syntax.LTLT && typeis(x, Int) && typeis(y, Int) && val(as(y, Int)) >= 512 ==> result1 != nil
 //@   ensures [C10] right_shift_is_exact: op == syntax.GTGT && typeis(x, Int) && typeis(y, Int) && 0 <= val(as(y, Int)) && val(as(y, Int)) <= MAX32 ==> result1 == nil && typeis(result0, Int) && val(as(result0, Int)) == rsh(val(as(x, Int)), val(as(y, Int)))
 //@   assert /return NewList\(z\), nil/ [C04,C13] list_concatenation_is_a_fresh_copy: len(z) == len(x.elems) + len(y.elems) && (len(z) > 0 ==> freshobj(storeof(z))) && forall(k, 0, len(x.elems), z[k] == x.elems[k]) && forall(k, 0, len(y.elems), z[len(x.elems) + k] == y.elems[k])
 //@   assert /return z, nil/ [C13] tuple_concatenation_is_a_fresh_copy: len(z) == len(x) + len(y) && (len(z) > 0 ==> freshobj(storeof(z))) && forall(k, 0, len(x), z[k] == x[k]) && forall(k, 0, len(y), z[len(x) + k] == y[k])
@@ -1018,3 +1019,13 @@ package starlark
 //@   assert /\*ptr = uint8\(i\)/ fits_uint8: i <= 255
 //@   assert /\*ptr = uint16\(i\)/ fits_uint16: i <= 65535
 //@   assert /\*ptr = uint32\(i\)/ fits_uint32: i <= MAXU32
+
+// ---- size guards (C02): a repetition whose result would have 2^30 elements or more is refused
+// before anything is allocated; so is a left shift by 512 bits or more
+//@ func tupleRepeat
+//@   prop C02 C13
+//@   ensures excessive_repeat_refused: len(elems) > 0 && val(n) >= 1 && val(n) * len(elems) >= 1073741824 ==> result1 != nil
+//@   ensures no_oversized_result: result1 == nil ==> len(result0) < 1073741824
+//@ func stringRepeat
+//@   prop C02 C13
+//@   ensures excessive_repeat_refused: len(s) > 0 && val(n) >= 1 && val(n) * len(s) >= 1073741824 ==> result1 != nil
